@@ -114,7 +114,7 @@ class CppReaderRef:
         if op == "C":
             if self.pend and self.k == n - 1:
                 return ("unspecified", None)
-            return (self.k == n, None)
+            return (self.k == n or getattr(self, "skip", False), None)
         i = call[1]
         if i >= n:
             return (None, None)
@@ -205,7 +205,7 @@ class PyReaderRef:
         op = call[0]
         n = len(self.pat)
         if op == "C":
-            return (self.k == n and not self.it, None)
+            return ((self.k == n and not self.it) or getattr(self, "skip", False), None)
         i = call[1]
         if i >= n:
             return (None, None)
@@ -247,6 +247,7 @@ def cpp_driver_source(pkg, ns):
         out.append("};")
         out.append("struct R_%s : public %s::%sReaderBase {" % (p.name, ns, p.name))
         out.append("  Env env;")
+        out.append("  R_%s(bool skip = false) : %s::%sReaderBase(skip) {}" % (p.name, ns, p.name))
         for i, (sn, st) in enumerate(steps):
             cn = cppdrv.cpp_name(sn)
             if st[0] == "stream":
@@ -271,7 +272,7 @@ def cpp_driver_source(pkg, ns):
                 out.append("    else if (op == 'W' && i == %d) w.Write%s(int32_t(1));" % (i, cn))
         out.append("    else res = \"na\"; (void)two;")
         out.append("  } catch (std::exception const& e) { res = \"ex\"; } std::cout << res << \":\" << w.st() << \" \"; } }")
-        out.append("  else { R_%s r; r.env.rem = rem; for (auto const& c : calls) { std::string res = \"ok\"; try {" % p.name)
+        out.append("  else { R_%s r(kind == 'K'); r.env.rem = rem; for (auto const& c : calls) { std::string res = \"ok\"; try {" % p.name)
         out.append("    char op = c[0]; int i = c.size() > 2 ? std::stoi(c.substr(2)) : -1; int32_t v = 0;")
         out.append("    if (op == 'C') r.Close();")
         for i, (sn, st) in enumerate(steps):
@@ -341,7 +342,20 @@ def make_writer(name, pat):
         ns["_write_s%d" % i] = mk(c)
     return type("W", (base,), ns)()
 
-def make_reader(name, pat, rem):
+def make_concrete_reader(name, pat, rem, fmt):
+    import io
+    if fmt == "Q":
+        W, R, buf = getattr(mod, "Binary" + name + "Writer"), getattr(mod, "Binary" + name + "Reader"), io.BytesIO()
+    else:
+        W, R, buf = getattr(mod, "NDJson" + name + "Writer"), getattr(mod, "NDJson" + name + "Reader"), io.StringIO()
+    w = W(buf)
+    for i, c in enumerate(pat):
+        getattr(w, "write_s%d" % i)(7 if c == "N" else [7] * rem[i])
+    w.close()
+    data = buf.getvalue()
+    return R(io.BytesIO(data) if fmt == "Q" else io.StringIO(data))
+
+def make_reader(name, pat, rem, skip=False):
     base = getattr(mod, name + "ReaderBase")
     ns = {"_close": lambda self: None}
     for i, c in enumerate(pat):
@@ -353,7 +367,7 @@ def make_reader(name, pat, rem):
             ns["_read_s%d" % i] = gen
         else:
             ns["_read_s%d" % i] = lambda self: 7
-    return type("R", (base,), ns)()
+    return type("R", (base,), ns)(skip) if skip else type("R", (base,), ns)()
 
 for line in sys.stdin:
     parts = line.split()
@@ -362,8 +376,10 @@ for line in sys.stdin:
     out = []
     if kind == "W":
         o = make_writer(name, pat)
+    elif kind in ("Q", "J"):
+        o = make_concrete_reader(name, pat, rem, kind)
     else:
-        o = make_reader(name, pat, rem)
+        o = make_reader(name, pat, rem, skip=(kind == "K"))
     its = {}
     for c in calls:
         op, _, i = c.partition("_")
@@ -430,9 +446,16 @@ def alphabet(lang, kind, pat):
 
 
 def make_ref(lang, kind, pat, rem):
+    """kinds: W writer stub, R reader stub, K reader stub constructed with skip_completed_check=true (close() never complains, every
+    read is checked as usual), Q / J (Python) the generated binary / NDJSON reader classes themselves over a stream that holds
+    `rem` items per stream step."""
     if lang == "cpp":
-        return CppWriterRef(pat) if kind == "W" else CppReaderRef(pat, rem)
-    return PyWriterRef(pat) if kind == "W" else PyReaderRef(pat, rem)
+        r = CppWriterRef(pat) if kind == "W" else CppReaderRef(pat, rem)
+    else:
+        r = PyWriterRef(pat) if kind == "W" else PyReaderRef(pat, rem)
+    if kind == "K":
+        r.skip = True
+    return r
 
 
 def ref_call(lang, call):
@@ -609,8 +632,10 @@ def main(tier):
                 rems.append(r)
             rems = [list(x) for x in dict.fromkeys(tuple(r) for r in rems)]
         for lang, proc in (("cpp", cpp), ("py", py)):
-            for kind in ("W", "R"):
-                envs = rems if kind == "R" else [[0] * len(pat)]
+            for kind in (("W", "R", "K") if lang == "cpp" else ("W", "R", "K", "Q", "J")):
+                envs = rems if kind != "W" else [[0] * len(pat)]
+                if kind in ("K", "Q", "J") and len(envs) > 3:
+                    envs = [envs[0], envs[len(envs) // 2], envs[-1]]
                 if quick and len(envs) > 9:
                     envs = envs[::2]
                 for rem in envs:
